@@ -13,7 +13,7 @@ import (
 
 func init() {
 	register(&Property{
-		ID: "C09",
+		ID:          "C09",
 		Explanation: "For every public type that serves requests (http.Handler / utils.ErrorHandler implementations) or owns a mutex, every exported method is taken as a concurrent entry point with the receiver as the shared object. An interprocedural, flow-sensitive must-lockset analysis names locks and memory locations by access paths from the receiver, follows module callees in the caller's context (including goroutines started with `go`, and String() methods reached through %v logging of the receiver), and records every read and write of receiver-reachable state with the locks certainly held. R1: for every location written by some entry point, every conflicting pair of accesses (write/any, from any two entry points or the same one twice) must share a lock that excludes them (mutex, or RWMutex with the write side in exclusive mode; a reader that cleans up, e.g. RollingCounter.Count, is a writer). R2: objects reached through interfaces that are not concurrency-safe by contract (io.Writer, Meter, foreign pointer receivers such as hdrhistogram) count as written by every call. R3: every Lock is released on every path to a return. All call paths are enumerated; nothing is executed.",
 		NotDecided: []string{
 			"atomicity across two critical sections (check-then-act split over unlock/relock)",
@@ -337,5 +337,8 @@ func mutantsC09() []Mutant {
 		{Name: "cbreaker-warn-before-lock", File: "cbreaker/cbreaker.go", Old: "\tc.m.Lock()\n\tdefer c.m.Unlock()\n\n\tc.log.Warn(\"%v is in error state\", c)\n", New: "\tc.log.Warn(\"%v is in error state\", c)\n\n\tc.m.Lock()\n\tdefer c.m.Unlock()\n", Expect: "C09.R1"},
 		{Name: "missing-unlock-on-path", File: "ratelimit/tokenlimiter.go", Old: "\ttl.mutex.Lock()\n\tdefer tl.mutex.Unlock()\n\n\teffectiveRates := tl.resolveRates(req)", New: "\ttl.mutex.Lock()\n\n\teffectiveRates := tl.resolveRates(req)", Expect: "C09.R3"},
 		{Name: "ttlmap-get-writer-under-rlock", File: "internal/holsterv4/collections/ttlmap.go", Old: "func (m *TTLMap) lockNDel(mapEl *mapElement) {\n\tm.mutex.Lock()\n\tdefer m.mutex.Unlock()\n", New: "func (m *TTLMap) lockNDel(mapEl *mapElement) {\n\tm.mutex.RLock()\n\tdefer m.mutex.RUnlock()\n", Expect: "C09.R1"},
+		{Name: "string-takes-rlock", File: "cbreaker/cbreaker.go", Old: "func (c *CircuitBreaker) String() string {\n", New: "func (c *CircuitBreaker) String() string {\n\tc.m.RLock()\n\tdefer c.m.RUnlock()\n", Expect: "C09.R4"},
+		{Name: "clone-shallow", File: "memmetrics/counter.go", Old: "\tother := &RollingCounter{\n\t\tresolution:  c.resolution,\n\t\tvalues:      make([]int, len(c.values)),\n\t\tlastBucket:  c.lastBucket,\n\t\tlastUpdated: c.lastUpdated,\n\t}\n\tcopy(other.values, c.values)\n\treturn other\n", New: "\tother := *c\n\treturn &other\n", Expect: "C09.R5"},
+		{Name: "lookup-outside-mutex", File: "ratelimit/tokenlimiter.go", Old: "\ttl.mutex.Lock()\n\tdefer tl.mutex.Unlock()\n\n\teffectiveRates := tl.resolveRates(req)\n\tbucketSetI, exists := tl.bucketSets.Get(source)\n", New: "\teffectiveRates := tl.resolveRates(req)\n\tbucketSetI, exists := tl.bucketSets.Get(source)\n\n\ttl.mutex.Lock()\n\tdefer tl.mutex.Unlock()\n", Expect: "C09.R6"},
 	}
 }
